@@ -45,8 +45,10 @@ fn engine_hist(args: &Args) -> i32 {
             _ => hist::run_one::<tk::Z16>(hseed, ops, light, &mut st),
         };
         st.counts.bump(&format!("shape.{}", shape));
-        if let Err((v, trace)) = r {
-            emit_violation(&v, "hist", seed, &format!("k={} shape={} ops={}", k, shape, ops), &trace);
+        if let Err((vs, trace)) = r {
+            for v in &vs {
+                emit_violation(v, "hist", seed, &format!("k={} shape={} ops={}", k, shape, ops), &trace);
+            }
             nviol += 1;
             if nviol >= 5 {
                 break;
@@ -94,8 +96,10 @@ fn engine_thin(args: &Args) -> i32 {
             _ => thin::run_one::<tk::Z16, tk::T1>(hseed, ops, light, &mut st),
         };
         st.counts.bump(&format!("thin.shape.{}", shape));
-        if let Err((v, trace)) = r {
-            emit_violation(&v, "thin", seed, &format!("k={} shape={} ops={}", k, shape, ops), &trace);
+        if let Err((vs, trace)) = r {
+            for v in &vs {
+                emit_violation(v, "thin", seed, &format!("k={} shape={} ops={}", k, shape, ops), &trace);
+            }
             nviol += 1;
             if nviol >= 5 {
                 break;
